@@ -10,6 +10,7 @@ import (
 	v1 "github.com/truora/minidyn/aws-v1/client"
 	"github.com/truora/minidyn/interpreter"
 	"github.com/truora/minidyn/simrt"
+	mtypes "github.com/truora/minidyn/types"
 )
 
 // V1 drives aws-v1/client.
@@ -288,6 +289,10 @@ func (d *V1) Exec(cmd *Cmd) (o Outcome) {
 	case "Native":
 		if cmd.Native == "activate" {
 			d.cl.ActivateNativeInterpreter()
+		}
+		if cmd.Native == "matcher" {
+			verdict := cmd.Verdict
+			d.cl.GetNativeInterpreter().AddMatcher(cmd.T, interpreter.ExpressionTypeFilter, FilterText(cmd), func(_, _ map[string]*mtypes.Item) bool { return verdict })
 		}
 		o.Class = "ok"
 	case "Bad":
